@@ -22,20 +22,21 @@ class Clause:
 
 
 class RaisesClause:
-    def __init__(self, cls, when=None, ensures=(), label=None, tags=(), origin=None):
+    def __init__(self, cls, when=None, ensures=(), label=None, tags=(), origin=None, caller_only=False):
         self.cls = cls                    # class name, or tuple of names
         self.when = when                  # expr over the pre-state (old values), or None
         self.ensures = [Clause.of(e) for e in ensures]
         self.label = label or (cls if isinstance(cls, str) else '|'.join(cls))
         self.tags = tuple(tags) if not isinstance(tags, str) else (tags,)
         self.origin = origin
+        self.caller_only = caller_only   # over-approximation offered to callers; not accepted when verifying the body
 
 
 class FnContract:
     def __init__(self, key, file=None, qual=None, params=None, free=None, returns='any', is_async=False, suspends=None,
                  requires=(), ensures=(), raises=(), modifies=(), ghost_modifies=(), loops=None, callsites=None,
                  locals=None, cancellable=None, interference=None, assume_asserts=(), trusted=False, pure=False,
-                 self_cls=None, notes='', path_budget=4000, spec_term=None, exits_ensure=(), varkw=None, allocates=True, cancel_must_propagate=False):
+                 self_cls=None, notes='', path_budget=4000, spec_term=None, exits_ensure=(), varkw=None, allocates=True, cancel_must_propagate=False, exit_hook=None, ctx_modifies=()):
         self.key = key
         self.file = file
         self.qual = qual
@@ -63,6 +64,8 @@ class FnContract:
         self.spec_term = spec_term   # pure property: expression over `self` (str) or callable(ex, selfV) -> V
         self.varkw = varkw
         self.cancel_must_propagate = cancel_must_propagate
+        self.exit_hook = exit_hook
+        self.ctx_modifies = list(ctx_modifies)   # context variables (keys) of the current task the function may leave changed
         self.allocates = allocates
         self.exits_ensure = [Clause.of(c) for c in exits_ensure]   # must hold on every exit (normal or exceptional)
 
